@@ -28,6 +28,18 @@ CHECKS = {
         note='Trusted: TLC, the projection through public attributes. Segment.copy / Trunk.extend are exercised through the '
              'operator library in C03/C12. Placeholder-only cycles are not generated (property silent).',
         design='6/C11'),
+    'C01': dict(
+        technique='TLC exhaustive model checking of the transcribed compiler (every segment <= 4 nodes x persistent list x '
+                  'visit order) against the graph denotation; TLC-generated segments compiled by the real flow.compile and '
+                  'executed by an independent interpreter; random larger segments validated by TLC as reference semantics',
+        text='Compiler.tla generates every valid segment within the constants, defines Den (direct evaluation over '
+             'uninterpreted terms, loaded/committed states at list positions) and proves Sound for the transcribed Table.add '
+             'under every visit order. Each generated (segment, persistent list) is built on the real API, compiled, interpreted, '
+             'and the bag of functor values, the commits and the loads are compared with TLC\'s. Random segments up to 9-11 '
+             'nodes (3 ports) go the other way: TraceCompiler.tla recomputes Den for each observation.',
+        note='Trusted: TLC, harness.refinterp, symbolic actors, the recording stand-in for asset.Generation. Validity '
+             'preconditions of a segment are stated in the evidence assumptions.',
+        design='6/C01'),
 }
 
 NOT_YET = {}
